@@ -173,6 +173,10 @@ def recurring_case(draw, brokers):
         case["inspect"] = [{"at": draw(st.integers(100, 5000)) / 1000, "queue": "q0", "category": "DELAYED", "n": draw(st.integers(1, 2)),
                             "hold": draw(st.sampled_from([0.01, 0.1, 0.3])), "how": draw(st.sampled_from(["reject", "reject", "close"]))}
                            for _ in range(draw(st.integers(1, 3)))]
+        # (every hand-back of an iteration that is not due yet may move it to a later slot - skipped slots are fine - so a
+        #  time-to-live of a few seconds could simply run out before the job ever runs: that is expiry, not recurrence)
+        if j.get("ttl") is not None and j["ttl"] < 30:
+            j["ttl"] = 30
     return gen.finalize(gen.host_dims(draw, case, rename=False))
 
 
